@@ -31,6 +31,9 @@ def run(ctx):
                        "the server's behaviour over a history.")
     snd, asm, lin = R.sender, R.assembler, R.line_reader
     G = R.graph
+    # what the client reports comes from this session only (A9 of C10): no container shared by all Client objects / all calls
+    from .c10 import a9
+    a9(ctx, R)
 
     # ---- K1 ---------------------------------------------------------------------
     ctx.rule("K1", "sender: writes, then exactly one assembler call on every normal path; assembler otherwise only via the capability reader")
